@@ -32,7 +32,10 @@ def configs(tier, seed):
 
 # (extra argv, original server port, expected exported server port)
 WIRING = [([], 443, 443), (["-m"], 443, 8080), (["-m", "443:8081"], 443, 8081), (["-p", "8443", "-m", "443:8081,", "8443:9000"], 8443, 9000),
-          (["-p", "8443", "-m", "443:8081"], 8443, 8080), (["-p", "8443"], 8443, 8443)]
+          (["-p", "8443", "-m", "443:8081"], 8443, 8080), (["-p", "8443"], 8443, 8443),
+          # the defaults stay selected when -p adds ports
+          ([], 44330, 44330), (["-p", "8443"], 44330, 44330), (["-p", "8443", "9443"], 443, 443), (["-p", "8443", "9443"], 9443, 9443),
+          (["-p", "8443", "-m", "8443:9000"], 44330, 8080)]
 
 
 def bounds(tier):
